@@ -781,6 +781,12 @@ func (r *rsRun) item(it string) (body []byte, content bool, desc string, ok bool
 		if !ok || d < 1 {
 			return nil, false, "", false
 		}
+		// the message is laid out back to front in one buffer (wrapping level by level would copy everything
+		// d times: the harness must not have the quadratic cost it is looking for in the client)
+		const hdr = 24 // constructor id, count, msg_id, seq_no, bytes
+		buf := make([]byte, hdr*d+len(b))
+		copy(buf[hdr*d:], b)
+		inner := len(b)
 		for lvl := 0; lvl < d; lvl++ {
 			r.srv.mu.Lock()
 			mid := r.srv.newMsgID()
@@ -790,15 +796,24 @@ func (r *rsRun) item(it string) (body []byte, content bool, desc string, ok bool
 				r.srv.content++
 			}
 			r.srv.mu.Unlock()
-			b = rsCat(rsU32(rsCrcContainer), rsU32(1), rsU64(mid), rsU32(seq), rsU32(uint32(len(b))), b)
-			if d > 64 && lvl == d-10 {
+			at := hdr * (d - 1 - lvl)
+			binary.LittleEndian.PutUint32(buf[at:], rsCrcContainer)
+			binary.LittleEndian.PutUint32(buf[at+4:], 1)
+			binary.LittleEndian.PutUint64(buf[at+8:], mid)
+			binary.LittleEndian.PutUint32(buf[at+16:], seq)
+			binary.LittleEndian.PutUint32(buf[at+20:], uint32(inner))
+			inner += hdr
+			switch {
+			case d > 64 && lvl < d-10:
 				// a very deep message is described down to its ninth level only ("deep" = further containers):
 				// no client looks further than maxContainerDepth, and the trace stays readable
 				desc = "deep"
+			default:
+				desc = fmt.Sprintf("cont[%d:%d:%s]", mid, seq, desc)
 			}
-			desc = fmt.Sprintf("cont[%d:%d:%s]", mid, seq, desc)
 			content = false
 		}
+		b = buf
 		return b, false, desc, true
 	case strings.HasPrefix(it, "Bk"): // bad_msg_notification naming the j-th msgs_ack the client wrote
 		s := r.srv
